@@ -360,13 +360,43 @@ def replay(script, var, tid, flips):
         reqmac = q.mac
     del EVENTS[:]
     # ---- the signer's side is independent of the receiver: sign every envelope first
-    sends = [ev for ev in script[1:] if ev["op"] == "send"]
+    sends = [ev for ev in script[1:] if ev["op"] in ("send", "resign")]
     out_sends = []
     sctx = None
+    m = None
+    last_origid = 0
+    nres = 0
     for i, ev in enumerate(sends, start=1):
+        if ev["op"] == "resign":
+            # the SAME Message object (use_tsig() was called once, before its first rendering) is modified
+            # and rendered again with Message.to_wire; a later clock, as for a real retry / extension
+            nres += 1
+            _Clock.now = base + 2 * nres
+            rec = {"op": "resign", "mod": ev["mod"], "signed": True, "t": _Clock.now}
+            try:
+                if ev["mod"] == "id":
+                    m.id ^= 0x0404
+                elif ev["mod"] == "head":
+                    m.flags ^= dns.flags.CD
+                elif ev["mod"] == "body":
+                    m.answer.append(dns.rrset.from_text("b%d.example." % nres, 30, "IN", "A", "10.0.9.%d" % nres))
+                n0 = len(EVENTS)
+                wire = m.to_wire(multi=multi, tsig_ctx=sctx)
+                if multi:
+                    sctx = m.tsig_ctx
+                sg = [x for x in EVENTS[n0:] if x[0] == "sign"]
+                dig = sg[-1][1] if sg else b""
+                rec.update(wire=list(wire), dig=list(dig), hm=std_mac(st["hash"], SECRET, dig) if sg else [], res="ok", nsign=len(sg))
+            except Exception as ex:  # noqa: BLE001
+                rec.update(wire=[], dig=[], hm=[], res="err", exc=type(ex).__name__)
+                wire = b""
+            rec["origid"] = last_origid
+            out_sends.append((rec, wire))
+            continue
+        _Clock.now = base
         m = build_message(kind, i, len(sends))
         origid = None if var["origid"] == "same" else (m.id ^ 0x0101)
-        rec = {"op": "send", "signed": ev["signed"]}
+        rec = {"op": "send", "signed": ev["signed"], "t": base}
         try:
             if ev["signed"]:
                 n0 = len(EVENTS)
@@ -383,7 +413,9 @@ def replay(script, var, tid, flips):
             rec.update(wire=[], dig=[], hm=[], res="err", exc=type(ex).__name__)
             wire = b""
         rec["origid"] = m.id if origid is None else origid
+        last_origid = rec["origid"]
         out_sends.append((rec, wire))
+    _Clock.now = base
     m1 = build_message(kind, 1, 1)
     start = dict(st)
     start.update(keywire=canon_wire(keytext), algwire=canon_wire(alg), reqmac=list(reqmac), other=list(other),
@@ -395,16 +427,18 @@ def replay(script, var, tid, flips):
     rmac = reqmac
     rctx = None
     skew = 0
+    signtime = base
     cw = b""
     dead = False
     k = 0
     signed_in_flight = False
     for ev in script[1:]:
         op = ev["op"]
-        if op == "send":
+        if op in ("send", "resign"):
             rec, cw = out_sends[k]
             k += 1
             signed_in_flight = rec["signed"]
+            signtime = rec.pop("t")
             ev_out.append(rec)
         elif op == "tamper":
             cw = tamper(cw, ev["region"], signed_in_flight, st["minbits"])
@@ -445,7 +479,7 @@ def replay(script, var, tid, flips):
                 rec["out"] = "dead"
                 ev_out.append(rec)
                 continue
-            _Clock.now = base + skew
+            _Clock.now = signtime + skew
             ring = make_ring(ring_form, ring_name, ring_secret, ring_alg)
             rec0 = bytes(rctx.rec) if rctx is not None else None
             proto = rctx
